@@ -104,6 +104,10 @@ TRUSTED = [
     "(tied by streams 'lies', 'fit_targets', 'acquisition')",
     "CBO.tell/ask before search(): the harness calls CBO._setup_optimizer() as CBO._search does on its first call",
     "stream 'e2e_stat' is a statistical TEST with fixed seeds (not a theorem): later proposals concentrate at the maximiser",
+    "one-shot batches (topk / boltzmann) are asked with filter_duplicated=True on a search that has not asked anything before, so the cached "
+    "candidate list holds every configuration once; boltzmann only guarantees its FIRST element (argmax of -acquisition), the rest is sampled",
+    "acquisition on real forests: zero-std candidates are compared with each other and with one positive-std candidate at a time (weak "
+    "direction only); two positive-std EI/PI values of a real forest are not compared (floating-point results of nearby arguments)",
 ]
 ASSUMPTIONS = [
     "objective values are finite numbers (NaN/inf belong to C06)",
@@ -118,8 +122,8 @@ RULE = ("functional streams: small dyadic vectors/histories per scalarisation x 
         "kappa=0, interpolating forest; non-trivial = at least two distinct objective vectors and the maximiser is not the first candidate")
 
 # function ids (Entry.v)
-F_TELL, F_LIE, F_LIEVEC, F_IMPUTE, F_YLIE, F_LCB, F_SCALTODAY, F_SCAL, F_SCALEHIST, F_MOO, F_MOOTODAY, F_ARGMIN, F_SOSCALE, F_QBOUNDS = range(501, 515)
-O_PICKMAX, O_PICKWEAK, O_PICKPARETO, O_PICKIDEAL, O_LIE, O_LIEVEC, O_FILL, O_ORDER, O_LCBDIR, O_MONO, O_STRICT, O_IDEAL, O_SCALER = range(520, 533)
+F_TELL, F_LIE, F_LIEVEC, F_IMPUTE, F_YLIE, F_LCB, F_SCALTODAY, F_SCAL, F_SCALEHIST, F_MOO, F_MOOTODAY, F_ARGMIN, F_SOSCALE, F_QBOUNDS, F_TOPK = range(501, 516)
+O_PICKMAX, O_PICKWEAK, O_PICKPARETO, O_PICKIDEAL, O_LIE, O_LIEVEC, O_FILL, O_ORDER, O_LCBDIR, O_MONO, O_STRICT, O_IDEAL, O_SCALER, O_ACQWEAK, O_TOPK = range(520, 535)
 
 LKIND = {"cl_min": 0, "cl_mean": 1, "cl_max": 2}
 FPOL = {"mean": 0, "max": 1}
@@ -619,7 +623,7 @@ def const_scheduler(i, eta_0):
 
 
 def make_cbo(d, n_x, surrogate, n_obj_kind="Chebyshev", w=None, strategy="cl_max", ff="min", acq="UCB", kappa=0.0, scaler="identity",
-             n_points=16, seed=0, surrogate_kwargs=None, n_z=1):
+             n_points=16, seed=0, surrogate_kwargs=None, n_z=1, filter_duplicated=False):
     from deephyper.hpo import CBO, HpProblem
 
     pb = HpProblem()
@@ -631,7 +635,7 @@ def make_cbo(d, n_x, surrogate, n_obj_kind="Chebyshev", w=None, strategy="cl_max
         return 0.0
 
     s = CBO(pb, run, log_dir=d, random_state=seed, surrogate_model=surrogate, surrogate_model_kwargs=surrogate_kwargs, acq_func=acq, kappa=kappa,
-            acq_optimizer="sampling", n_points=n_points, filter_duplicated=False, n_initial_points=1, scheduler=const_scheduler, objective_scaler=scaler,
+            acq_optimizer="sampling", n_points=n_points, filter_duplicated=filter_duplicated, n_initial_points=1, scheduler=const_scheduler, objective_scaler=scaler,
             moo_scalarization_strategy=n_obj_kind, moo_scalarization_weight=w, multi_point_strategy=strategy, filter_failures=ff, verbose=0)
     # CBO.tell / CBO.ask need the optimizer that CBO._search creates on its first call
     s._setup_optimizer()
@@ -830,20 +834,31 @@ class StubModel:
         return self.mu
 
 
+def acq_direction_ok(m, acq, triples):
+    """direction oracle; where some predicted std is exactly 0, EI / PI are 0 there and only the weak clause can be asked."""
+    zero = any(t[1] == 0 for t in triples)
+    if zero and not acq.startswith("LCB"):
+        return bool(m.call(O_ACQWEAK, qpack(triples)))
+    return bool(m.call(O_LCBDIR, qpack(triples)))
+
+
 def check_acq(case):
     import numpy as np
     from deephyper.skopt.acquisition import _gaussian_acquisition, gaussian_lcb
 
+    if "forest" in case:
+        return check_acq_forest(case)
     acq, kappa, mus, stds = case["acq"], case["kappa"], case["mus"], case["stds"]
     m = model()
     X = np.zeros((len(mus), 1))
     stub = StubModel(mus, stds)
-    res = base_res(["acq=" + acq, "n=%d" % len(mus), "kappa=%g" % kappa], nontrivial=len(set(zip(mus, stds))) > 1, acq_func=acq)
+    res = base_res(["acq=" + acq, "n=%d" % len(mus), "kappa=%g" % kappa, "zero-std" if any(sd == 0 for sd in stds) else "positive-std"],
+                   nontrivial=len(set(zip(mus, stds))) > 1, acq_func=acq)
     vals = _gaussian_acquisition(X, stub, y_opt=case["y_opt"], acq_func=acq, acq_func_kwargs=dict(kappa=kappa, xi=case["xi"]))
     vals = [float(v) for v in vals]
     triples = [[F(a), F(b), F(c)] for a, b, c in zip(mus, stds, vals)]
-    if not m.call(O_LCBDIR, qpack(triples)):
-        return fail(res, "oracle", "acquisition_direction", dict(mus=mus, stds=stds, vals=vals))
+    if not acq_direction_ok(m, acq, triples):
+        return fail(res, "oracle", "acquisition_direction", dict(mus=mus, stds=stds, vals=vals, y_opt=case["y_opt"]))
     if acq in ("LCB", "LCBd"):
         mod = unqs(m.call(F_LCB, qpack(F(kappa), Fl(mus), Fl(stds))))
         direct = [float(v) for v in gaussian_lcb(X, stub, kappa=kappa, deterministic=acq.endswith("d"))]
@@ -852,21 +867,73 @@ def check_acq(case):
     return res
 
 
+def check_acq_forest(case):
+    """a real forest surrogate on a dense 1-D history: at many candidates all trees agree and the (epistemic) std is exactly 0."""
+    import numpy as np
+    from deephyper.skopt.acquisition import _gaussian_acquisition
+    from deephyper.skopt.learning import RandomForestRegressor
+
+    fo, acq = case["forest"], case["acq"]
+    m = model()
+    est = RandomForestRegressor(n_estimators=8, min_samples_split=2, bootstrap=fo["bootstrap"], max_samples=None, max_features=1.0,
+                                splitter=fo["splitter"], random_state=fo["seed"])
+    Xt = np.array(fo["x"], dtype=float).reshape(-1, 1)
+    yt = np.array(fo["y"], dtype=float)
+    est.fit(Xt, yt)
+    X = np.array(fo["cand"], dtype=float).reshape(-1, 1)
+    if acq.endswith("d"):
+        mu, _, std = est.predict(X, return_std=True, disentangled_std=True)
+    else:
+        mu, std = est.predict(X, return_std=True)
+    vals = _gaussian_acquisition(X, est, y_opt=float(yt.min()), acq_func=acq, acq_func_kwargs=dict(kappa=1.96, xi=case["xi"]))
+    nz = int((std == 0).sum())
+    res = base_res(["acq=" + acq, "forest=" + fo["splitter"], "zero-std=%d/%d" % (min(nz, 9), 9) if nz < 9 else "zero-std>=9"],
+                   nontrivial=nz > 0, acq_func=acq)
+    tr = [[F(a), F(b), F(c)] for a, b, c in zip(mu, std, vals)]
+    zeros = [t for t in tr if t[1] == 0]
+    pos = [t for t in tr if t[1] != 0]
+    # all zero-std candidates together, plus one positive-std candidate at a time (two positive-std candidates are never compared: their
+    # EI values are floating-point results of nearby arguments)
+    groups = [zeros] if not pos else [zeros + [t] for t in pos[:6]]
+    for g in groups:
+        if g and not m.call(O_ACQWEAK, qpack(g)):
+            return fail(res, "oracle", "acquisition_direction", dict(mu=[float(t[0]) for t in g], std=[float(t[1]) for t in g],
+                                                                    vals=[float(t[2]) for t in g], y_opt=float(yt.min())))
+    return res
+
+
 def gen_acq(count):
     def gen(rng, tier):
         acqs = ["LCB", "LCBd", "EI", "PI", "EId", "PId"]
+        # a candidate with zero predicted std that is predicted WORSE than the best observation must not get a better value than one
+        # predicted better
+        yield dict(acq="EId", kappa=1.96, xi=0.0, y_opt=0.0, mus=[-1.0, 3.0, 0.5], stds=[0.0, 0.0, 0.0])
+        yield dict(acq="EI", kappa=1.96, xi=0.0, y_opt=0.0, mus=[-1.0, 3.0, 0.5], stds=[1.0, 0.0, 0.0])
         for i in range(count * (3 if tier == "search" else 1)):
             acq = acqs[i % 6]
             n = rng.randint(2, 6)
+            if (i // 6) % 4 == 3 and not acq.startswith("LCB"):
+                # real forest, dense history
+                nt = rng.randint(4, 12)
+                ys = [dy(rng, -8, 8) for _ in range(nt)]
+                cand = [float(x) for x in range(nt)] + [x + 0.5 for x in range(nt - 1)] + [-1.0, nt + 1.0]
+                yield dict(acq=acq, xi=rng.choice([0.0, 0.001, 0.01]), kappa=1.96,
+                           forest=dict(x=list(range(nt)), y=ys, cand=cand, seed=rng.randint(0, 10 ** 6),
+                                       splitter=rng.choice(["random", "best"]), bootstrap=rng.random() < 0.3))
+                continue
             if acq.startswith("LCB"):
                 mus = [dy(rng, -8, 8) for _ in range(n)]
                 stds = [dy(rng, 0, 4) for _ in range(n)]
                 kappa = rng.choice([0.0, 0.5, 1.0, 2.0, 0.25])
             else:   # EI / PI: one common positive std (PI is not monotone in std), moderate standardised improvement
-                s = rng.choice([0.5, 1.0, 2.0])
-                stds = [s] * n
+                sd = rng.choice([0.5, 1.0, 2.0])
+                stds = [sd] * n
                 mus = [dy(rng, -2, 2) for _ in range(n)]
                 kappa = 1.96
+                if (i // 6) % 2:   # some (or all) candidates with std exactly 0: the trees of a forest agree there
+                    for j in rng.sample(range(n), rng.randint(1, n)):
+                        stds[j] = 0.0
+                    mus = [dy(rng, -6, 6) for _ in range(n)]
             yield dict(acq=acq, kappa=kappa, xi=rng.choice([0.0, 0.001, 0.01]), y_opt=dy(rng, -1, 1), mus=mus, stds=stds)
     return gen
 
@@ -934,6 +1001,7 @@ FOREST_KW = dict(n_estimators=4, min_samples_split=2, bootstrap=False, max_sampl
 def check_e2e(case):
     n_obj, kind, scaler, w, surrogate = case["n_obj"], case["kind"], case["scaler"], case["w"], case["surrogate"]
     objs, nx, nz, kappa = case["objs"], case["nx"], case["nz"], case.get("kappa", 0.0)
+    strategy, batch = case.get("strategy", "cl_max"), case.get("batch", 1)
     m = model()
     cfgs = [{"x": i, "z": j} if nz > 1 else {"x": i} for i in range(nx) for j in range(nz)]
     assert len(cfgs) == len(objs)
@@ -945,7 +1013,7 @@ def check_e2e(case):
     best_first = all(all(a >= b for a, b in zip(objs_q[0], r)) for r in objs_q)
     res = base_res(["n_obj=%d" % n_obj, "kind=" + (kind if n_obj > 1 else "-"), "scaler=" + scaler, "surrogate=" + surrogate, "acq=" + case["acq"],
                     "path=" + case["path"], "weights=" + ("random" if w is None else "fixed"), sign_tag(told_rows), "kappa=%g" % kappa,
-                    "tells=%d" % len(segments(len(objs), case.get("cuts")))],
+                    "tells=%d" % len(segments(len(objs), case.get("cuts"))), "strategy=%s" % strategy, "batch=%d" % batch],
                    nontrivial=len(set(map(tuple, objs))) > 1 and not best_first,
                    scalarisation=kind if n_obj > 1 else "none", scaler=eff_scaler, utopia=utag, surrogate=surrogate, n_obj=n_obj)
     if surrogate == "SPY":
@@ -954,8 +1022,10 @@ def check_e2e(case):
     else:
         sur, kw = surrogate, dict(FOREST_KW)
     with tempfile.TemporaryDirectory(prefix="vp_c05_") as d:
+        # one-shot batches ("topk", "boltzmann") rank the candidate list of the last fit: duplicates of the sampled candidates are
+        # filtered there (nothing has been ASKED before, so the filter only removes repeated samples)
         s = make_cbo(d, nx, sur, n_obj_kind=kind, w=w, acq=case["acq"], kappa=kappa, scaler=scaler, n_points=512, seed=case["seed"],
-                     surrogate_kwargs=kw, n_z=nz)
+                     surrogate_kwargs=kw, n_z=nz, strategy=strategy, filter_duplicated=strategy != "cl_max")
         if surrogate == "SPY":
             Spy.stds = case.get("stds")
         segs = segments(len(cfgs), case.get("cuts"))
@@ -972,11 +1042,16 @@ def check_e2e(case):
                     for i, (c, o) in enumerate(zip(cfgs[a:b], objs[a:b])):
                         f.write(",".join([str(c[k[2:]]) for k in names] + [repr(float(v)) for v in o] + [str(i)]) + "\n")
                 s.fit_surrogate(csv)
-        nxt = s.ask(1)[0]
-    key = {k: int(v) for k, v in nxt.items()}
-    if key not in cfgs:
-        return fail(res, "oracle", "proposal_outside_space", dict(proposal=repr(nxt)))
-    idx = cfgs.index(key)
+        asked = s.ask(batch if strategy != "cl_max" else 1)
+    keys = [{k: int(v) for k, v in nxt.items()} for nxt in asked]
+    if any(key not in cfgs for key in keys):
+        return fail(res, "oracle", "proposal_outside_space", dict(proposal=repr(asked)))
+    idxs = [cfgs.index(key) for key in keys]
+    key, idx = keys[0], idxs[0]   # cl_max: the proposal; boltzmann: its first element is the candidate with the best acquisition value
+    if strategy == "topk":
+        return check_topk_batch(case, res, m, idxs, objs_q, told_rows, eff_scaler)
+    if strategy == "boltzmann" and len(idxs) != batch:
+        return fail(res, "corr", "batch_size", dict(asked=keys))
     det = dict(proposal=key, objective=objs[idx], objectives=objs)
     if n_obj == 1:
         score = [r[0] for r in objs_q]
@@ -1002,6 +1077,34 @@ def check_e2e(case):
     return res
 
 
+def check_topk_batch(case, res, m, idxs, objs_q, told_rows, eff_scaler):
+    """ask(n, "topk") on a fully observed space: the batch is the n best candidates (as a set)."""
+    n_obj, kind, w, batch, kappa = case["n_obj"], case["kind"], case["w"], case["batch"], case.get("kappa", 0.0)
+    det = dict(batch=idxs, objectives=case["objs"])
+    if n_obj == 1:
+        score = [r[0] for r in objs_q]
+        if kappa and case.get("stds"):
+            score = [r[0] + F(kappa) * F(sd) for r, sd in zip(objs_q, case["stds"])]
+        if not m.call(O_TOPK, qpack(score, batch, idxs)):
+            return fail(res, "oracle", "batch_not_the_largest_objectives", det)
+        return res
+    if len(set(idxs)) != len(idxs) or len(idxs) != min(batch, len(objs_q)):
+        return fail(res, "oracle", "batch_not_distinct", det)
+    # a candidate that is best in every objective belongs to the batch (all five scalarisers)
+    ideal = [i for i in range(len(objs_q)) if all(all(a >= b for a, b in zip(objs_q[i], r)) for r in objs_q)]
+    if ideal and not any(m.call(O_PICKIDEAL, qpack(objs_q, i)) for i in idxs):
+        return fail(res, "oracle", "ideal_configuration_not_in_batch", det)
+    if eff_scaler == "quantile-uniform" and interior_ties([[r[j] for r in told_rows] for j in range(n_obj)]):
+        return dict(res, desc=res["desc"] + ["quantile-interior-ties"])
+    if w is not None:   # the batch has the n smallest model scores (value multiset, ties in any order)
+        mod = unqs(m.call(F_MOO, qpack(SCKIND[eff_scaler], SKIND[kind], F(DEFAULT_PAR[kind]), Fl(w), n_obj, told_rows)))
+        want = sorted(mod[i] for i in m.call(F_TOPK, qpack(batch, mod)))
+        got = sorted(mod[i] for i in idxs)
+        if not lists_close(got, want, False):
+            return fail(res, "corr", "batch_not_model_topk", dict(det, model=[float(x) for x in mod]))
+    return res
+
+
 def gen_objs(rng, n, n_obj, pattern):
     """user objectives: a base pattern, then offset / scale (all-positive, all-negative, mixed sign)."""
     base = [[dy(rng, 0, 8) for _ in range(n_obj)] for _ in range(n)]
@@ -1024,6 +1127,9 @@ def gen_e2e(count):
         # F07 end to end: all-positive objectives, identity scaler, Chebyshev
         yield dict(n_obj=2, kind="Chebyshev", scaler="identity", w=[0.5, 0.5], surrogate="ET", acq="UCB", path="tell", nx=4, nz=1,
                    objs=[[100.0, 100.0], [101.0, 103.0], [107.0, 106.0], [104.0, 105.0]], seed=3)
+        # one-shot batch: the two largest objectives (x = 2, 3)
+        yield dict(n_obj=1, kind="Linear", scaler="identity", w=[1.0], surrogate="RF", acq="UCB", path="tell", nx=4, nz=1,
+                   objs=[[3.0], [1.0], [7.0], [5.0]], seed=2, strategy="topk", batch=2)
         # the utopia point must follow the history: objectives increasing with x, told in two batches (then the best is x = 9)
         for kind0 in ("Chebyshev", "AugChebyshev", "Quadratic", "PBI"):
             for path0 in ("tell", "fit_surrogate"):
@@ -1046,6 +1152,10 @@ def gen_e2e(count):
             case = dict(n_obj=n_obj, kind=kind, scaler=scalers[(i // 5) % 4], w=None if i % 4 == 3 else gen_weights(rng, n_obj, positive=True),
                         surrogate=sur, acq=["UCB", "UCBd"][(i // 7) % 2], path=["tell", "fit_surrogate"][(i // 11) % 2], nx=nx, nz=nz, objs=objs,
                         seed=rng.randint(0, 10 ** 6), cuts=gen_cuts(rng, nx * nz))
+            if i % 5 == 1:
+                case.update(strategy="topk", batch=rng.choice([1, 2, 3, 4, nx * nz, nx * nz + 2]))
+            elif i % 5 == 3:
+                case.update(strategy="boltzmann", batch=rng.choice([1, 2, 3]))
             if sur == "SPY" and n_obj == 1 and (i // 8) % 2 == 0:
                 case["kappa"] = rng.choice([0.5, 1.0, 2.0])
                 case["stds"] = [dy(rng, 0, 4) for _ in range(nx * nz)]
@@ -1057,6 +1167,8 @@ def gen_e2e(count):
 
 def shrink_e2e(case):
     objs, nx, nz = case["objs"], case["nx"], case["nz"]
+    if case.get("batch", 1) > 1:
+        yield dict(case, batch=case["batch"] - 1)
     cuts = case.get("cuts") or []
     for i in range(len(cuts)):
         yield dict(case, cuts=cuts[:i] + cuts[i + 1:])
